@@ -140,8 +140,10 @@ func (c05Stream) Generate(rng *rand.Rand, n int, thorough bool) []Case {
 				[]int{1000, 5000, 20000}[rng.Intn(3)], modes[rng.Intn(4)], []int{2, 4, 16}[rng.Intn(3)]), Kind: "stop"})
 			continue
 		}
-		cs = append(cs, Case{Line: fmt.Sprintf("c05 n=%d k=%d size=%d mode=%s slow=%d procs=%d nodone=%d", w, k, size, modes[rng.Intn(4)],
-			rng.Intn(3)/2, []int{1, 2, 4, 16}[rng.Intn(4)], rng.Intn(4)/3), Kind: "writers"})
+		// (poison: an earlier request of the connection was answered and its handler then panicked INSIDE a further Write -
+		// a typed-nil response -; gldap recovers that request, and the connection's later writers are none the worse)
+		cs = append(cs, Case{Line: fmt.Sprintf("c05 n=%d k=%d size=%d mode=%s slow=%d procs=%d nodone=%d poison=%d", w, k, size, modes[rng.Intn(4)],
+			rng.Intn(3)/2, []int{1, 2, 4, 16}[rng.Intn(4)], rng.Intn(4)/3, rng.Intn(3)/2), Kind: "writers"})
 	}
 	return cs
 }
@@ -271,6 +273,13 @@ func (c05Stream) Impl(c Case) string {
 		}
 		_ = w.Write(r.NewSearchDoneResponse(gldap.WithResponseCode(gldap.ResultSuccess)))
 	})
+	if p["poison"] == "1" {
+		_ = mux.Bind(func(w *gldap.ResponseWriter, r *gldap.Request) {
+			answer(w, r)
+			var none *gldap.BindResponse
+			_ = w.Write(none) // panics inside Write; the request goroutine's recover takes it
+		})
+	}
 	var extra []gldap.Option
 	wtimeout := atoi(p["wtimeout"])
 	if wtimeout > 0 {
@@ -295,6 +304,13 @@ func (c05Stream) Impl(c Case) string {
 	stopMode := p["stop"] == "1"
 	if p["unbind"] == "1" {
 		req = append(req, Seq(Int(2, 99999), P(1, 2, nil)).Ser()...)
+	}
+	if p["poison"] == "1" {
+		_ = cl.send(opFrame("bind", 50))
+		if f, err := cl.readFrame(5 * time.Second); err != nil || !strings.HasPrefix(strictView(f), "result id=50 ") {
+			return fmt.Sprintf("harness-error the bind before the writers was not answered: %v", err)
+		}
+		time.Sleep(30 * time.Millisecond)
 	}
 	go func() {
 		_ = cl.send(req)
